@@ -20,8 +20,9 @@ V3(x, y, z) == <<I(x), I(y), I(z)>>
 V4(x, y, z, t) == <<I(x), I(y), I(z), I(t)>>
 
 \* ---------------------------------------------------------------- vectors
+\* incl. points hugging the -x axis from both sides (phi near +-pi)
 Vec2Quick == { V2(3, 4), V2(-5, 12), V2(-8, -15), V2(2, -3), V2(1, 0), V2(0, -1), V2(0, 0),
-               <<R(1, 2), R(-7, 2)>> }
+               <<R(1, 2), R(-7, 2)>>, <<I(-1), R(1, 1024)>>, <<I(-1), R(-1, 1024)>> }
 Vec2Full  == Vec2Quick \cup
              { V2(-3, 4), V2(4, -3), V2(0, 1), V2(-1, 0), V2(1, 1), V2(-1, -2), V2(20, 21),
                V2(-7, 24), <<R(3, 8), R(1, 2)>>, V2(65, 0), V2(-1, 1) }
@@ -30,7 +31,7 @@ Vec2 == IF Tier = "quick" THEN Vec2Quick ELSE Vec2Full
 \* (x, y, z) with rho and mag rational where possible
 Vec3Quick == { V3(3, 4, 12), V3(-9, 12, -20), V3(12, -16, 15), V3(-8, -6, 0),
                V3(0, 0, 1), V3(0, 0, -2), V3(1, 0, 0), V3(0, 0, 0),
-               V3(1, 2, 3), V3(-2, 1, -1), <<R(1, 8), I(0), I(1)>> }
+               V3(1, 2, 3), V3(-2, 1, -1), <<R(1, 8), I(0), I(1)>>, <<I(-2), R(-1, 512), R(1, 512)>> }
 Vec3Full  == Vec3Quick \cup
              { V3(-3, -4, 12), V3(4, -3, -12), V3(0, 1, 0), V3(0, -5, 12), V3(1, 1, 1),
                V3(2, -3, 6), V3(-1, 2, 2), V3(8, 15, 0), V3(5, 0, -12), V3(-1, -1, 0),
